@@ -125,7 +125,8 @@ func Compare(w *mc.World, m *model.State, tracked []string) []Disc {
 		}
 		want := EntParamsReal(w, model.EntParamsRaw{Denom: m.Ent.P.Denom, Signers: strings.Join(m.Ent.P.Signers, ","), Min: m.Ent.P.Min, Limit: m.Ent.P.Limit})
 		if pr.Params != want {
-			add(disc("params.ent", "enterprise params: implementation %+v, model %+v", pr.Params, want))
+			var st enttypes.Params
+			add(paramsDisc(w, "ent", enttypes.StoreKey, enttypes.ParamsKey, &st, func() bool { return st == want }, fmt.Sprintf("enterprise params: implementation %+v, model %+v", pr.Params, want)))
 		}
 		ids := make([]uint64, 0)
 		for id := range m.Ent.Orders {
@@ -211,7 +212,8 @@ func Compare(w *mc.World, m *model.State, tracked []string) []Disc {
 			add(Disc{Kind: "listquery.failed", Detail: fmt.Sprintf("query %s fails on a reachable state: %v", "/mainchain.stream.v1.Query/Params", qe)})
 		}
 		if !pr.Params.ValidatorFee.Equal(DecFromString(m.FeeNum)) {
-			add(disc("params.str", "stream validator fee: implementation %s, model %s", pr.Params.ValidatorFee, m.FeeNum))
+			var st streamtypes.Params
+			add(paramsDisc(w, "str", streamtypes.StoreKey, streamtypes.ParamsKey, &st, func() bool { return !st.ValidatorFee.IsNil() && st.ValidatorFee.Equal(DecFromString(m.FeeNum)) }, fmt.Sprintf("stream validator fee: implementation %s, model %s", pr.Params.ValidatorFee, m.FeeNum)))
 		}
 		var sr streamtypes.QueryStreamsResponse
 		if qe := w.Query("/mainchain.stream.v1.Query/Streams", &streamtypes.QueryStreamsRequest{Pagination: &query.PageRequest{Limit: 1000}}, &sr); qe != nil {
@@ -263,6 +265,19 @@ func Compare(w *mc.World, m *model.State, tracked []string) []Disc {
 	return out
 }
 
+// paramsDisc reports a parameter mismatch between the params query and the model. If the bytes in the
+// store still decode to what the model holds, only the *view* is stale (parameters served from
+// somewhere else than the store): both sides still agree about the state, so the search goes on past it.
+func paramsDisc(w *mc.World, mod, storeKey string, key []byte, into interface {
+	Unmarshal([]byte) error
+}, equalsModel func() bool, detail string) Disc {
+	raw := w.Ctx().KVStore(w.App.GetKey(storeKey)).Get(key)
+	if raw != nil && into.Unmarshal(raw) == nil && equalsModel() {
+		return Disc{Kind: "params.stale_view." + mod, Detail: detail + " - while the parameters in the store are the model's: the query (and whatever else reads parameters the same way) does not read the store"}
+	}
+	return Disc{Kind: "params." + mod, Detail: detail}
+}
+
 func compareAnchor(w *mc.World, m *model.State, wrk bool) []Disc {
 	var out []Disc
 	add := func(d ...Disc) { out = append(out, d...) }
@@ -279,7 +294,8 @@ func compareAnchor(w *mc.World, m *model.State, wrk bool) []Disc {
 		}
 		want := wrkchaintypes.NewParams(a.P.FeeReg, a.P.FeeRec, a.P.FeePur, a.P.Denom, a.P.Default, a.P.Max)
 		if pr.Params != want {
-			add(disc("params.wrk", "wrkchain params: implementation %+v, model %+v", pr.Params, want))
+			var st wrkchaintypes.Params
+			add(paramsDisc(w, "wrk", wrkchaintypes.StoreKey, wrkchaintypes.ParamsKey, &st, func() bool { return st == want }, fmt.Sprintf("wrkchain params: implementation %+v, model %+v", pr.Params, want)))
 		}
 	} else {
 		var pr beacontypes.QueryParamsResponse
@@ -288,7 +304,8 @@ func compareAnchor(w *mc.World, m *model.State, wrk bool) []Disc {
 		}
 		want := beacontypes.NewParams(a.P.FeeReg, a.P.FeeRec, a.P.FeePur, a.P.Denom, a.P.Default, a.P.Max)
 		if pr.Params != want {
-			add(disc("params.bcn", "beacon params: implementation %+v, model %+v", pr.Params, want))
+			var st beacontypes.Params
+			add(paramsDisc(w, "bcn", beacontypes.StoreKey, beacontypes.ParamsKey, &st, func() bool { return st == want }, fmt.Sprintf("beacon params: implementation %+v, model %+v", pr.Params, want)))
 		}
 	}
 	ids := make([]uint64, 0)
